@@ -43,7 +43,7 @@ PROP = {
              "of the two state machines, non-trivial = dialogues yielding at least one transaction, distinct = (channel type, "
              "closer is opener, offer number of that closer, closer/closee output below dust, early offer seen, link mode, closer names a new script, closee has changed its script)"),
     "assumptions": ["MockSigner; musig2 nonces generated as peer.MusigChanCloser does",
-                    "both parties of the RBF unit are lnd state machines: closing_complete always carries the lock time lnd chooses (0); a foreign closer proposing a non-zero lock time is not generated (seed C17j is missed for that reason)"],
+                    "both parties of the RBF unit are lnd state machines; in half of the cases a party is configured with a non-zero Environment.BlockHeight and, as closer, signs the lock time it announces through the harness' CloseSigner wrapper (lnd's own closer signs lock time 0 while announcing BlockHeight, a configuration production code never uses: not judged)"],
     "units": [{
         "name": "closetx", "pkg": "lnwallet", "test": "TestVerifC17",
         "files": _E1 + ["lnwallet/c01_test.go", "lnwallet/c17_test.go"],
@@ -64,12 +64,12 @@ PROP = {
         "files": ["lnwallet/chancloser/c17rbf_test.go"], "exports": {"lnwallet": E1X},
         "shards": {"quick": 8, "thorough": 16},
         "watchdog": {"quick": 900, "thorough": 5400},
-        "floors": {"quick": {"nontrivial": 185, "oracle_identical_tx": 490, "oracle_exact_outputs": 490,
+        "floors": {"quick": {"nontrivial": 185, "rbf_parties_with_block_height": 130, "oracle_identical_tx": 490, "oracle_exact_outputs": 490,
                              "oracle_interpreter": 490, "rbf_replacements": 170, "unaffordable_refused": 110,
                              "closer_output_dust": 90, "closee_output_dust": 22, "both_sides_closed": 115,
                              "shaped_nonopener_balance": 45, "rbf_script_changes": 60,
                              "rbf_script_change_closes": 55, "oracle_peer_script_after_change": 25},
-                   "thorough": {"nontrivial": 13000, "oracle_identical_tx": 35000, "oracle_exact_outputs": 35000,
+                   "thorough": {"nontrivial": 13000, "rbf_parties_with_block_height": 9000, "oracle_identical_tx": 35000, "oracle_exact_outputs": 35000,
                                 "rbf_replacements": 13000, "unaffordable_refused": 8500,
                                 "closee_output_dust": 2400}},
     }],
